@@ -1,4 +1,11 @@
 # C08 — actor timers fire inside the actor, as often as configured, and die with it
+import glob
+import json
+import os
+import re
+import shutil
+import time
+
 import vlib
 
 TRUSTED = [
@@ -13,6 +20,19 @@ TRUSTED = [
     "Go harnesses + generators + monitors (harness/cmd/c08sched, harness/cmd/c08actor, harness/vh), bin/check, lib/vlib.py",
     "testing/synctest (go1.26.8): virtual clock, every goroutine of the system inside the bubble; the default ants dispatcher "
     "replaced by a goroutine dispatcher through the verif hook VerifSetDefaultDispatcher",
+    "hand-written machine coq/C08/InitModel.v of the lazy creation of the per-context scheduler (initScheduler and its callers in "
+    "engine/vivid/actor_context.go: sync.Once.Do statement by statement — done.Load, m.Lock, done.Load, create, store, done.Store, m.Unlock — "
+    "then load of the field and registration; any number of concurrent callers), PARAMETERISED by the initialisation discipline (once / "
+    "unguarded lazy); tie T3 (harness/translate/c08init, go/ast, syntactic, package engine/vivid of the tree under test): every assignment "
+    "to the field of actorContext of type *chrono.Scheduler and where it sits (inside the function handed to Do of a sync.Once field of the "
+    "context — also through a method referenced only from there —, under a nil test, elsewhere), every other use of the sync.Once fields, "
+    "every use of the scheduler field and its protection (ensuring call before it / nil check), the callers through which the creation is "
+    "reached incl. the spawner's call on the child's context in ActorOf are extracted to Coq and InitInstance.v proves by vm_compute that "
+    "they denote the once machine — reflection, unsafe, whole-struct copies of an actorContext, aliases of the field and helpers of other "
+    "packages are not seen; sync.Mutex a blocking boolean, sync/atomic sequentially consistent",
+    "tie T1 sub-harness 'init' (harness/cmd/c08init): search oracle only — real ActorSystem in real time with GOMAXPROCS >= 4, thousands of "
+    "actors WithExpireDuration whose OnLaunch registers a repeating task while the spawner arms the expiry on the same context; StopTask / "
+    "re-registration, per-actor timestamps, 200 ms margin; the interleavings are those the Go runtime happens to produce",
 ]
 FINDING_STALE = "C08-stale-callback-after-restart"
 FINDING_DST = "C08-daymoment-dst-drift"
@@ -34,7 +54,19 @@ MANIFEST = {
             "results of the operations and the instant of termination exactly; Go-side monitors restate the property: callback turns "
             "never overlap a handler, counts, not early / not late, nothing after a cancellation that came before the due instant, "
             "nothing after the owner's OnTerminated, restart and termination complete, the parent is notified, Shutdown returns "
-            "(virtual watchdog), idle deadline and expiry terminate only when due.",
+            "(virtual watchdog), idle deadline and expiry terminate only when due. "
+            "Creation of the per-context scheduler (InitModel: every registration is 'ensure the scheduler; load the field; register', and it "
+            "is not confined to the actor's goroutine — ActorOf arms the expiry on the child's context from the spawner's goroutine after "
+            "OnLaunch has been posted): for any number of concurrent callers and every interleaving of their atomic steps (sync.Once "
+            "statement by statement) at most one scheduler object is ever created, nobody dereferences a nil field, every task registered "
+            "sits in the object the context holds and the field never changes once stored — so StopTask, re-registration, Clear on restart "
+            "and Close on termination reach every task —, every caller registers exactly once and nobody waits for ever; for the unguarded "
+            "lazy initialisation ('if scheduler == nil { scheduler = new }') the refuting schedule is proved: two goroutines, two "
+            "schedulers, the task registered in the first is orphaned for ever. The discipline of the tree under test is extracted on every "
+            "run (go/ast: every assignment of the field, the sync.Once fields and their uses, every use of the field and its protection, "
+            "the callers incl. the spawner's) and proved by vm_compute to be the once machine; a real-time, truly parallel stress family "
+            "(~36 000 spawns per run, 5x thorough; a task that still fires 200 ms after its own StopTask / after its name was registered "
+            "again) is the search oracle on every run and, at thorough volume under fresh seeds, the failing-input search when that tie breaks.",
     "note": "needs fixes/C08-timer-handle.patch (one line: task.timer = s.wheel.ScheduleFunc(...)): on the unpatched tree StopTask / "
             "re-register / Clear / Close on a pending repeating, forever or cron task panic, an actor that owns one cannot restart and "
             "its termination never reaches its parent, so Shutdown hangs; the check prints VIOLATION with replay files. 'Not early' holds "
@@ -49,17 +81,26 @@ MANIFEST = {
             "findings (callbacks of the previous incarnation run after a restart; day-moment tasks drift by an hour across "
             "daylight-saving changes; texts in checks/c08_findings.json, listed in known_findings.json) are reproduced on every run. Trusted: the hand-written models (tied by "
             "differential runs, not translations), the timing-wheel contract as modelled (sequential: Stop always finds the timer), the "
-            "harnesses, synctest's virtual clock, the verif hook that replaces the default dispatcher.",
+            "harnesses, synctest's virtual clock, the verif hook that replaces the default dispatcher. The scheduler-creation tie (c08init) is "
+            "syntactic: it classifies assignments by their position relative to <once>.Do(...) and nil tests and inlines one level of "
+            "methods referenced only from the Do argument; creation through reflection, unsafe, a copied actorContext or a helper of another "
+            "package is not seen (the stress family 'init' is the safety net: it needs real parallelism, ~0.5-1 % of the spawns hit the "
+            "window on 16 cores when the guard is missing); the lock-step and synctest harnesses cannot see this class at all.",
     "technique": "Coq proof (instance-wise invariants + transition summaries composed over histories, binary-fuel iteration) + "
-                 "differential runs in virtual time (testing/synctest) on chrono.Scheduler and on a real ActorSystem + Go-side monitors",
+                 "differential runs in virtual time (testing/synctest) on chrono.Scheduler and on a real ActorSystem + Go-side monitors + "
+                 "atomic-step interleaving machine of the scheduler's lazy creation (invariant over every schedule, refuting schedule for the "
+                 "unguarded variant) tied by a go/ast translator whose facts are proved to denote the machine by vm_compute on every run + "
+                 "real-time parallel stress family as search oracle",
 }
 
 _orig_go_build = vlib.go_build
 
 
 def _go_build(ctx, pkg, **kw):
-    # both harnesses are test binaries: testing/synctest needs *testing.T and go1.26.8
-    kw["test"], kw["go"] = True, "go1.26.8"
+    # the two differential harnesses are test binaries: testing/synctest needs *testing.T and go1.26.8;
+    # c08init (real time, real parallelism) and the translator are plain programs
+    if pkg in ("c08sched", "c08actor"):
+        kw["test"], kw["go"] = True, "go1.26.8"
     return _orig_go_build(ctx, pkg, **kw)
 
 
@@ -68,18 +109,122 @@ def harnesses():
     # (then every run reports them as KNOWN-FINDING with a reproduction count)
     ids = {f.get("id") for f in vlib.known_findings("C08")}
     return [{"pkg": "c08sched", "sub": "sched", "go": "go1.26.8", "args": ["-dst"] if FINDING_DST in ids else []},
-            {"pkg": "c08actor", "sub": "actor", "go": "go1.26.8", "args": ["-stalecb"] if FINDING_STALE in ids else []}]
+            {"pkg": "c08actor", "sub": "actor", "go": "go1.26.8", "args": ["-stalecb"] if FINDING_STALE in ids else []},
+            {"pkg": "c08init", "sub": "init", "coq": False}]
 
 
 HARNESSES = harnesses()
 
 
+T3_NAMES = ["C08_scheduler_init_source_facts", "C08_scheduler_init_of_this_source"]
+
+
+def t3_init(ctx):
+    """Tie T3: extract the initialisation discipline of the per-context scheduler from the CURRENT engine/vivid, emit
+    InitExtracted.v + InitInstance.v, compile them (the instance theorem holds iff the discipline is the once machine's)."""
+    ctx.obligations += len(T3_NAMES)
+    if not os.path.exists(os.path.join(vlib.COQ, "C08", "InitProofs.vo")):
+        ctx.proof_errors.append("T3 (scheduler creation): coq/C08/InitProofs.vo is not built")
+        return
+    d = os.path.join(ctx.scratch, "t3init")
+    os.makedirs(d, exist_ok=True)
+    try:
+        exe = _orig_go_build(ctx, "./translate/c08init", name="c08init_translate")
+    except vlib.CheckError as e:
+        ctx.proof_errors.append("T3: cannot build harness/translate/c08init: %s" % str(e)[-800:])
+        return
+    rc, o, e, _ = vlib.sh([exe, "-repo", vlib.REPO, "-out", d], timeout=120)
+    if rc != 0:
+        ctx.extra["scheduler_init_tie"] = "broken"
+        ctx.proof_errors.append("T3: the scheduler field of actorContext and its assignments cannot be read from %s/engine/vivid: %s" % (vlib.REPO, (o + e)[-800:]))
+        return
+    facts = json.loads(o.strip().splitlines()[-1])
+    ctx.extra["t3_scheduler_init"] = facts
+    out = ""
+    for f in ("InitExtracted.v", "InitInstance.v"):
+        rc, o2, e2, _ = vlib.sh(["coqc", "-Q", vlib.COQ, "MV", "-Q", d, "", os.path.join(d, f)], cwd=d, timeout=900)
+        if rc != 0:
+            ctx.extra["scheduler_init_tie"] = "broken"
+            ws = ["%s %s [%s]%s: %s" % (w["fn"], w["pos"], w["site"], " = nil" if w["nil"] else "", w["text"]) for w in facts.get("writes") or []]
+            bad_users = ["%s %s [%s]: %s" % (u["fn"], u["pos"], u["guard"], u["text"]) for u in facts.get("users") or []
+                         if u["guard"] == "bare" or (u["guard"] == "nil-checked" and u["meth"].startswith("Register"))]
+            foreign = ["%s (%s) calls %s on the context it created at %s%s" % (x["fn"], x["pos"], x["callee"], x["bound_at"],
+                       ", after OnLaunch was posted to it (%s)" % x["onlaunch_posted_at"] if x["onlaunch_posted_before"] else "")
+                       for x in facts.get("foreign") or []]
+            witness = ""
+            if facts.get("discipline") == "lazy":
+                witness = (" This is the machine [init_state DLazy]: C08_scheduler_lazy_init_orphans_task_refuted is the refuting schedule (two "
+                           "goroutines find the field nil, each creates a scheduler, the second store overwrites the first: the task registered in "
+                           "the first scheduler is orphaned — StopTask cannot find it, re-registering its name does not replace it, it survives "
+                           "restart and termination).")
+                if foreign:
+                    witness += " The two goroutines exist in this source: %s." % "; ".join(foreign)
+            ctx.proof_errors.append(
+                "T3: the creation of the per-context scheduler in the tree under test is not the once-guarded one the theorems "
+                "C08_scheduler_created_once_no_task_orphaned / _field_stable / _every_registration_lands are about (every assignment of "
+                "actorContext.%s inside the function handed to Do of one sync.Once field of the context, that field used for nothing else, every "
+                "registration preceded by the ensuring call): extracted discipline = %s; assignments: %s; sync.Once fields: %s, other uses of "
+                "them: %s; unprotected uses: %s; callers of the creation: %s; callers of setExpireDuration: %s.%s %s" %
+                (facts.get("field"), facts.get("discipline"), ws, facts.get("once_fields"), facts.get("once_misuse"), bad_users,
+                 facts.get("ensure_callers"), facts.get("expire_callers"), witness, (o2 + e2)[-300:].replace("\n", " ")))
+            return
+        out += o2
+    bad = vlib.FORBIDDEN.search(vlib.strip_comments(open(os.path.join(d, "InitExtracted.v")).read() + open(os.path.join(d, "InitInstance.v")).read()))
+    closed = len(re.findall(r"Closed under the global context", out))
+    if bad or closed != len(T3_NAMES):
+        ctx.extra["scheduler_init_tie"] = "broken"
+        ctx.proof_errors.append("T3 (scheduler creation): instance theorems not closed under the global context:\n" + out[-800:])
+        return
+    ctx.extra["scheduler_init_tie"] = "ok"
+    for n in T3_NAMES:
+        ctx.theorems.append(n)
+        ctx.axioms[n] = []
+        ctx.discharged += 1
+
+
+_orig_default_search = vlib.default_search
+
+
+def init_search(ctx, budget_s=None):
+    """Failing-input search. When the scheduler-creation tie is broken the model has the refuting schedule (two goroutines inside the
+    unguarded creation): look for it on the implementation first — the stress family of c08init at thorough volume under fresh seeds —
+    then fall back to the generic search over every sub-harness."""
+    t0 = time.time()
+    binary = next((h[0] for h in ctx.harnesses if h[1] == "init"), None)
+    if ctx.extra.get("scheduler_init_tie") == "broken" and binary:
+        budget = budget_s or (60 if ctx.tier == "quick" else 300)
+        k = spawns = 0
+        while time.time() - t0 < budget:
+            k += 1
+            outdir = os.path.join(ctx.scratch, "search_init_%d" % k)
+            os.makedirs(outdir, exist_ok=True)
+            seed = ctx.seed + 104729 * k
+            vlib.sh([binary, "-out", outdir, "-seed", str(seed), "-tier", "thorough", "-nocoq"], timeout=max(60, budget - (time.time() - t0) + 120))
+            for sp in glob.glob(os.path.join(outdir, "*_summary.json")):
+                s = json.load(open(sp))
+                spawns += 1000 * ((s.get("distribution") or {}).get("volume_thousands") or {}).get("actors_spawned", 0)
+                for v in s.get("violations") or []:
+                    if not vlib.match_known(ctx.prop, v):
+                        v["search"] = {"seed": seed, "tier": "thorough", "family": "lazy-init", "spawns_tried_about": spawns}
+                        return v
+            shutil.rmtree(outdir, ignore_errors=True)
+        ctx.extra["init_search"] = {"spawns_tried_about": spawns, "wall_s": round(time.time() - t0, 1), "found": False}
+    return _orig_default_search(ctx, budget_s)
+
+
 def check(ctx):
     vlib.go_build = _go_build
-    return vlib.standard_check(ctx, ["C08"], "C08/Properties.v", harnesses(), TRUSTED, "DESIGN.md §6 C08",
-                               chk_modules=["MV.C08.Properties"])
+    vlib.default_search = init_search
+    try:
+        return vlib.standard_check(ctx, ["C08"], "C08/Properties.v", harnesses(), TRUSTED, "DESIGN.md §6 C08",
+                                   checker_extra="; go run harness/translate/c08init && coqc InitExtracted.v InitInstance.v (initialisation discipline of "
+                                                 "the per-context scheduler in the tree under test = the once machine); harness/cmd/c08init: stress "
+                                                 "family in real time (monitors only)",
+                                   chk_modules=["MV.C08.Properties"], pre=t3_init)
+    finally:
+        vlib.default_search = _orig_default_search
 
 
 def replay(ctx, path):
     vlib.go_build = _go_build
-    return vlib.standard_replay(ctx, {"sched": "c08sched", "actor": "c08actor"}, path)
+    return vlib.standard_replay(ctx, {"sched": "c08sched", "actor": "c08actor", "init": "c08init"}, path)
